@@ -239,6 +239,15 @@ pub fn exec_fault(cfg: &Config, fc: &FaultCase, record_probes: bool) -> FaultRun
                 }
                 return;
             }
+            let gate_site = site.strip_suffix("@gate");
+            if let Some(gs) = gate_site {
+                // every row of one gate (index = instruction index of the gate)
+                if party == Some(c) && s == gs && idx / 4 == index && !value.is_empty() {
+                    value[0] ^= 1;
+                    tc.set(tc.get() + 1);
+                }
+                return;
+            }
             if party == Some(c) && s == site && (index == usize::MAX || index == idx) && !value.is_empty() {
                 let mut any = false;
                 for p in &positions {
